@@ -303,6 +303,7 @@ class VersionsMachine(RuleBasedStateMachine):
         mc = _mc()
         self.mc = mc
         self.orig_records = list(mc.KNOWN_MINECRAFT_VERSION_RECORDS)
+        self.orig_list_obj = mc.KNOWN_MINECRAFT_VERSION_RECORDS
         self.orig_sup = list(mc.SUPPORTED_MINECRAFT_VERSIONS.items())
         self.ids = {n: id(getattr(mc, n)) for n in TABLE_NAMES}
         self.ids['records'] = id(mc.KNOWN_MINECRAFT_VERSION_RECORDS)
@@ -324,7 +325,8 @@ class VersionsMachine(RuleBasedStateMachine):
 
     def teardown(self):
         mc = self.mc
-        mc.KNOWN_MINECRAFT_VERSION_RECORDS[:] = self.orig_records
+        self.orig_list_obj[:] = self.orig_records
+        mc.KNOWN_MINECRAFT_VERSION_RECORDS = self.orig_list_obj
         mc.SUPPORTED_MINECRAFT_VERSIONS.clear()
         mc.initglobals(use_known_records=True)
 
@@ -385,6 +387,17 @@ class VersionsMachine(RuleBasedStateMachine):
                 self.records[i] = new
                 mc.KNOWN_MINECRAFT_VERSION_RECORDS[i] = mc.Version(*new)
                 return
+
+    @rule()
+    def rebind_records(self):
+        """The records are 'updated by the library user during runtime' by
+        assigning a new list to the module attribute (e.g. records = old +
+        [new]) instead of mutating it; initglobals() reads the attribute, so
+        this is as valid a way to extend them as append()."""
+        self.hist.append(('rebind_records', {}))
+        self.mc.KNOWN_MINECRAFT_VERSION_RECORDS = \
+            list(self.mc.KNOWN_MINECRAFT_VERSION_RECORDS)
+        self.ctx.label('records_rebound')
 
     @rule(vid=st.one_of(_ids_release, _ids_free), which=st.integers(0, 10**6))
     def legacy_add_supported(self, vid, which):
